@@ -1,29 +1,28 @@
 """C15 - str methods on a FmtStr agree with str on its text (DESIGN.md section 3, C15: narrow - D1..D6)."""
 import ast
 
-from ..cfg import enumerate_paths, lexical_guard, local_defs, single_defs
 from ..objinterp import Obj, ObjInterp
 from ..report import AnalysisError
-from ..srcmodel import is_self_attr, unparse
-from .c07 import _linear
+from ..srcmodel import unparse
 from .c14 import mk, runs_of
 
 EXPLANATION = (
-    "NARROW claim.  D1 generic delegation (FmtStr.__getattr__): the callee is getattr(<plain text of self>, <same name>) called "
-    "with the caller's *args/**kwargs unchanged, guarded by hasattr on the same object; D2 non-str/list answers are returned "
-    "unchanged; D3 str answers (and list elements) are wrapped by fmtstr(x, **shared_atts) and nothing else - checked on "
-    "the syntax tree and cross-checked by abstractly interpreting a curated list of delegated methods (upper, strip, center, "
-    "replace, find, count, startswith, zfill, title, partition-free list results) on model values with shared and non-shared "
-    "formatting.  D4 join inserts the separator by POSITION (before every item but the first), never depending on what has "
-    "been accumulated or on an item being empty.  D5 ljust/rjust pad by width - len(text) CHARACTERS (affine form), pad "
-    "nothing when that is not positive, delegate the fillchar form to str.ljust/rjust on the text with the shared "
-    "attributes.  D6 split scans non-overlapping leftmost matches: literal separators are re.escape()d into the same "
-    "finditer scan as regexes (or a find loop advancing by len(sep)); pieces are self[previous end:next start] in order; "
-    "splitlines is split on newline."
+    "The string methods of FmtStr (and FmtStr.__getitem__, shared_atts, fmtstr and everything else they call) are abstractly "
+    "interpreted on model values and every answer is compared with CPython's own str method applied to the plain text (the "
+    "oracle), formatting cell by cell: D1-D3 the generic delegation (FmtStr.__getattr__) on a curated list of str methods and "
+    "argument tuples (upper, lower, strip, center, replace, find, count, startswith, endswith, zfill, title, isdigit, rsplit, "
+    "index) on values with shared and non-shared formatting - same text or same non-text answer, text answers carry exactly "
+    "the shared formatting, an unknown attribute raises AttributeError; D3 shared_atts is exactly the formatting every "
+    "character has (layouts with empty runs); D4 join over every list of up to 3 items drawn from item kinds (empty, plain "
+    "str, one-run, two-run) for several separators agrees with str.join on the texts and keeps each character's formatting, "
+    "non-strings raise TypeError; D5 ljust / rjust for widths below, at and above the length, default and explicit fill "
+    "characters; D6 split with explicit separators present / absent / adjacent / at the ends, literal and regex, maxsplit, "
+    "against an independent reference (str.split / re.split on the text, formatting per character); splitlines "
+    "(keepends=False) on newline-only texts."
 )
-NOT_DECIDED = ("value-level agreement of split/splitlines/join/ljust/rjust with CPython's str on arbitrary arguments (their "
-               "implementation is index arithmetic over runtime strings and str's own implementation is not in this source); "
-               "keepends handling.")
+NOT_DECIDED = ("argument tuples and values outside the catalogue (bounded claim: the implementations are index arithmetic over "
+               "runtime strings); splitlines(keepends=True) and line boundaries other than \\n (the pinned implementation deviates "
+               "there; see DESIGN.md section 4); split() without a separator.")
 
 DELEGATED = [
     ("upper", (), {}), ("lower", (), {}), ("strip", (), {}), ("strip", ("h",), {}), ("center", (9,), {}), ("center", (9, "*"), {}),
@@ -280,26 +279,46 @@ def rule_split(src, rep, counts):
     if not bad:
         rep.ob("D6-split-agrees-with-reference", f.where(), f.scope, "%d (text, separator, mode) cases" % n, True)
     counts["split_cases"] = n
-    # splitlines without keepends
+    # splitlines, keepends False and True; \n and the other line boundaries str.splitlines knows
     g = src.func("formatstring", "FmtStr.splitlines")
-    bad = 0
+    groups = [
+        ("texts whose only line boundary is \\n, keepends=False", ("ab\n\n", "\n", "a\nb", "a\n", "", "a\n\nb", "\n\n\n", "abc"), False),
+        ("texts whose only line boundary is \\n, keepends=True", ("ab\n\n", "\n", "a\nb", "a\n", "", "a\n\nb", "\n\n\n", "abc"), True),
+        ("texts with \\r\\n / \\r line boundaries", ("a\r\nb", "a\rb", "a\r\n", "\r"), False),
+        ("texts with \\r\\n / \\r line boundaries, keepends=True", ("a\r\nb", "a\rb", "a\r\n"), True),
+        ("texts with the rarer line boundaries (\\v \\f \\x1c-\\x1e \\x85 \\u2028 \\u2029)", ("a\vb", "a\fb", "a\x1cb", "a\x85b", "a\u2028b", "a\u2029b"), False),
+    ]
     m = 0
-    for text in ("ab\n\n", "\n", "a\nb", "a\n", "", "a\n\nb", "\n\n\n", "abc"):
-        obj = mk(it, (text, {"fg": 31})) if text else mk(it, ("", {}))
-        r = it.call1("formatstring", "FmtStr.splitlines", obj)
-        if r[0] == "opaque":
-            raise AnalysisError("FmtStr.splitlines outside the evaluated subset: %s" % r[1])
-        want = text.splitlines()
-        m += 1
-        rep.case(True)
-        ok = r[0] == "ok" and isinstance(r[1], list) and ["".join(t for t, _ in runs_of(x)) for x in r[1]] == want
-        if not ok:
-            bad += 1
-            if bad <= 3:
-                rep.ob("D6-splitlines-agrees-with-str", g.where(), g.scope, "%r.splitlines()" % text, False,
-                       "FmtStr gives %s; str gives %r" % ([("".join(t for t, _ in runs_of(x))) for x in r[1]] if r[0] == "ok" and isinstance(r[1], list) else r, want))
-    if not bad:
-        rep.ob("D6-splitlines-agrees-with-str", g.where(), g.scope, "%d newline-only texts, keepends=False" % m, True)
+    for label, texts, keep in groups:
+        fails = []
+        for text in texts:
+            runs = [(text[:1], {"fg": 31}), (text[1:], {"bold": True})] if len(text) > 1 else [(text, {"fg": 31})] if text else [("", {})]
+            obj = mk(it, *runs)
+            r = it.call1("formatstring", "FmtStr.splitlines", obj, keep) if keep else it.call1("formatstring", "FmtStr.splitlines", obj)
+            if r[0] == "opaque":
+                raise AnalysisError("FmtStr.splitlines outside the evaluated subset: %s" % r[1])
+            want = text.splitlines(keep)
+            m += 1
+            rep.case(True)
+            got = ["".join(t for t, _ in runs_of(x)) for x in r[1]] if r[0] == "ok" and isinstance(r[1], list) else r
+            ok = got == want
+            if ok:
+                # every character of every piece keeps its own formatting
+                pos = 0
+                orig = cells(runs)
+                for piece, x in zip(want, r[1]):
+                    at = text.index(piece, pos) if piece else pos
+                    if cells(runs_of(x)) != orig[at:at + len(piece)]:
+                        ok = False
+                        got = "pieces with other formatting than the characters had"
+                    pos = at + len(piece)
+            if not ok:
+                fails.append((text, got, want))
+        rep.ob("D6-splitlines-agrees-with-str", g.where(), g.scope, label, not fails,
+               "%r.splitlines(%s) gives %s; str gives %r (%d of %d texts of this group differ)"
+               % ((fails[0][0], "True" if keep else "", fails[0][1], fails[0][2], len(fails), len(texts)) if fails else ("", "", "", "", 0, 0)),
+               witness={"text": fails[0][0], "keepends": keep} if fails else None)
+    counts["splitlines_cases"] = m
 
 
 def rule_shared_complete(src, rep, counts):
